@@ -6,7 +6,7 @@ CONSTANTS
   Part = "permute"
   FlagSet <- FlagsStd
   SchI = {1}
-  UsrI = {1, 2}
+  UsrI = {2}
   PwI = {1}
   HostI = {1}
   PortI = {1}
